@@ -435,9 +435,15 @@ func (e *entryValueMap) tryExpungeLocked() (isExpunged bool) {
 }
 
 func (m *ValueMap) ToJSON() ([]byte, error) {
+	return m.toJSONRaw(map[*VMValue]bool{})
+}
+
+// toJSONRaw serialises the map; save carries the containers already being
+// serialised further up, so that a reference cycle through a dict is reported
+// instead of recursing without end.
+func (m *ValueMap) toJSONRaw(save map[*VMValue]bool) ([]byte, error) {
 	var lst [][]byte
 	var err error
-	save := map[*VMValue]bool{}
 	m.Range(func(key string, value *VMValue) bool {
 		var jsonKey []byte
 		var jsonData []byte
